@@ -84,11 +84,14 @@ type issuance struct {
 	Actor           string
 	Requested       string
 
+	Keys []vkit.SignKeySpec // the signing keys in force while this response was produced (one, or two around a roll-over)
+
 	Observed map[string]any
 }
 
 func (e *env) newIssuance(step string, mainStep bool, kind string, a *vkit.Agent, cl *vkit.ClientSpec, t0, t1 time.Time, ts tokenSet) *issuance {
 	is := &issuance{Step: step, Main: mainStep, Kind: kind, Agent: a, Client: cl, T0: t0, T1: t1, Tokens: ts, Issuer: e.issuerOf(a), Observed: map[string]any{}}
+	is.Keys = e.signingKeysOf()
 	if cl != nil {
 		is.ClientID, is.Skew, is.WantJWT = cl.ID, int64(cl.ClockSkewS), cl.JWTAccessToken
 	}
@@ -102,20 +105,62 @@ func (e *env) keySet(a *vkit.Agent) oidc.KeySet {
 	return rp.NewRemoteKeySet(hc, "http://"+a.Host+e.sut.Paths["keys"])
 }
 
-// checkSignature: header alg / kid are those of the current signing key and the signature verifies with that key (crypto/* only).
-func (e *env) checkSignature(is *issuance, what string, j *jwt) {
+// checkSignature: header alg / kid are those of a signing key in force for this response (the current one; around a roll-over the
+// one before or after the switch) and the signature verifies with that very key (crypto/* only). Returns the key the token
+// claims to be signed with: everything else in the token (at_hash, c_hash) is judged against that key's algorithm.
+func (e *env) checkSignature(is *issuance, what string, j *jwt) vkit.SignKeySpec {
 	alg, _ := j.Header["alg"].(string)
 	kid, _ := j.Header["kid"].(string)
-	if alg != e.sign.Alg {
-		e.fail("C06:sig-alg:"+what, "%s: %s signed with alg %q, the provider's signing key is %s/%s", is.Step, what, alg, e.sign.KeyName, e.sign.Alg)
-		return
+	cur := is.Keys[len(is.Keys)-1]
+	var byAlg *vkit.SignKeySpec
+	for i := range is.Keys {
+		k := &is.Keys[i]
+		if k.Alg == alg && (byAlg == nil || k.KID == kid) {
+			byAlg = k
+		}
 	}
-	if kid != e.sign.KID {
-		e.fail("C06:sig-kid:"+what, "%s: %s carries kid %q, the current signing key is %q", is.Step, what, kid, e.sign.KID)
+	if byAlg == nil {
+		e.fail("C06:sig-alg:"+what, "%s: %s signed with alg %q, the provider's signing key is %s", is.Step, what, alg, describeKeys(is.Keys))
+		return cur
 	}
-	if err := verifyJWS(alg, vkit.Key(e.sign.KeyName).Pub, j.Input, j.Sig); err != nil {
-		e.fail("C06:sig-invalid:"+what, "%s: %s does not verify with the current signing key %s: %v", is.Step, what, e.sign.KeyName, err)
+	k := *byAlg
+	if kid != k.KID {
+		e.fail("C06:sig-kid:"+what, "%s: %s carries kid %q, the signing key is %s", is.Step, what, kid, describeKeys(is.Keys))
 	}
+	if err := verifyJWS(alg, vkit.Key(k.KeyName).Pub, j.Input, j.Sig); err != nil {
+		e.fail("C06:sig-invalid:"+what, "%s: %s (alg %s, kid %q) does not verify with the signing key %s/%s it names: %v", is.Step, what, alg, kid, k.KeyName, k.KID, err)
+	}
+	if len(is.Keys) > 1 {
+		if k == is.Keys[0] {
+			e.res.Label("key-roll:token-under-old-key:" + what)
+		} else {
+			e.res.Label("key-roll:token-under-new-key:" + what)
+		}
+	}
+	is.Observed[what+"_key"] = k.KID + "/" + k.Alg
+	return k
+}
+
+func describeKeys(ks []vkit.SignKeySpec) string {
+	var out []string
+	for _, k := range ks {
+		out = append(out, fmt.Sprintf("%s/%s (kid %q)", k.KeyName, k.Alg, k.KID))
+	}
+	if len(out) > 1 {
+		return strings.Join(out, " rolled over to ") + " during this response"
+	}
+	return out[0]
+}
+
+// hashBits is the size of the hash at_hash / c_hash are built with under alg (OIDC Core 3.1.3.6; EdDSA/Ed25519: SHA-512).
+func hashBits(alg string) int {
+	switch {
+	case strings.HasSuffix(alg, "256"):
+		return 256
+	case strings.HasSuffix(alg, "384"):
+		return 384
+	}
+	return 512
 }
 
 // timeOK reports whether time-dependent sub-claims may be asserted for this response (DESIGN 3.3).
@@ -262,12 +307,12 @@ func (e *env) judgeJWTAccess(is *issuance) *vkit.AccessTok {
 		return nil
 	}
 	is.Observed["at"] = j.Claims
-	e.checkSignature(is, "at", j)
+	key := e.checkSignature(is, "at", j)
 
 	// the library's own verifier over the published key set
 	func() {
 		defer e.recoverLib(is.Step + ": op.VerifyAccessToken")
-		v := op.NewAccessTokenVerifier(is.Issuer, e.keySet(is.Agent), op.WithSupportedAccessTokenSigningAlgorithms(e.sign.Alg))
+		v := op.NewAccessTokenVerifier(is.Issuer, e.keySet(is.Agent), op.WithSupportedAccessTokenSigningAlgorithms(key.Alg))
 		claims, err := op.VerifyAccessToken[*oidc.AccessTokenClaims](context.Background(), tok, v)
 		if err != nil {
 			e.fail("C06:lib-verify-at:"+kind, "%s: op.VerifyAccessToken(issuer %q, /keys) rejects the JWT access token the OP just issued: %v", is.Step, is.Issuer, err)
@@ -419,8 +464,7 @@ func (e *env) judgeIDToken(is *issuance) {
 		return
 	}
 	is.Observed["idt"] = j.Claims
-	e.checkSignature(is, "idt", j)
-	alg := e.sign.Alg
+	alg := e.checkSignature(is, "idt", j).Alg
 	cl := is.Client
 
 	// scopes the id token may draw user claims from
@@ -574,6 +618,14 @@ func (e *env) judgeIDToken(is *issuance) {
 
 // judgeUserinfo: the provider's own reader of access tokens (decrypt / verify + storage lookup) honours the fresh token.
 func (e *env) judgeUserinfo(is *issuance, stored *vkit.AccessTok) {
+	if j, err := parseJWT(is.Tokens.Access); err == nil {
+		if alg, _ := j.Header["alg"].(string); alg != e.c.Sign.Alg {
+			// the provider's own access-token verifier is configured (vkit.Build) for the algorithm of the first signing key only:
+			// that it refuses a token of the rolled-over algorithm is this configuration, not a property of the token
+			e.res.Label("grey:userinfo-skipped:alg-outside-op-verifier-config")
+			return
+		}
+	}
 	r := is.Agent.UserInfo(is.Tokens.Access)
 	if r.Panic != nil {
 		e.fail("C06:panic@"+r.PanicFrame(), "%s: userinfo panicked: %v", is.Step, r.Panic)
